@@ -25,7 +25,7 @@ pub fn budget_for(id: &str, tier: vcore::Tier) -> u64 {
         "C02" => (1000000, 40),
         "C03" => (400000, 40),
         "C04" => (500000, 40),
-        "C05" => (500000, 40),
+        "C05" => (500000, 24),
         "C06" => (100000, 12),
         "C09" => (500000, 40),
         "C10" => (600000, 40),
@@ -34,7 +34,7 @@ pub fn budget_for(id: &str, tier: vcore::Tier) -> u64 {
         "C13" => (500000, 40),
         "C14" => (80000, 40),
         "C17" => (1000000, 40),
-        "C18" => (80000, 12),
+        "C18" => (80000, 8),
         "C19" => (250000, 24),
         "C20" => (400000, 40),
         _ => (100_000, 20),
